@@ -116,6 +116,69 @@ def correspond(ctx):
                 if max(d1, d2) > 1e-6 * (1 + max(abs(a) for a in ref[1] + ref[2] + [0.0])):
                     ctx.violation('c07:solvers-disagree:%s-vs-%s' % (nm, ref[0]), 'kkt_%s and kkt_%s give different solutions of the same KKT system (diff %.3g)' % (nm, ref[0], max(d1, d2)),
                                   {'dims': dims, 'sparse': sp})
+    # ---- the same block system WITH the nonlinear block (cp / cpl): GG = [Df; G], W acts on (znl, zl), the factories take mnl and the factor call takes
+    # H and Df.  kkt_qr has no nonlinear variant; kkt_chol2 takes part on 'l'-only cones.
+    nnl = 40 if ctx.quick() else 1500
+    nl_systems = 0
+    for it in range(nnl):
+        dims = PR.rand_dims(rng)
+        if it % 3 == 0: dims = {'l': rng.randint(0, 2), 'q': [3] if rng.random() < 0.5 else [], 's': [rng.randint(2, 3) for _ in range(rng.randint(1, 2))]}
+        N = PR.cdim(dims)
+        if N == 0: continue
+        mnl = rng.randint(1, 2)
+        n = rng.randint(1, min(4, N)); p = rng.randint(0, min(2, n - 1))
+        for _ in range(30):
+            Gc = [PR.sym_vector(rng, dims) for _ in range(n)]
+            Ac = [[PR.rint(rng) for _ in range(p)] for _ in range(n)]
+            if PR.rank_cols(Gc, [[] for _ in range(n)]) == n and PR.rank_rows(Ac, p) == p: break
+        else: continue
+        G = matrix([x for col in Gc for x in col], (N, n), 'd'); A = matrix([x for col in Ac for x in col], (p, n), 'd')
+        Df = matrix([PR.rint(rng) for _ in range(mnl * n)], (mnl, n), 'd')
+        B = matrix([PR.rint(rng, 2) for _ in range(n * n)], (n, n)); H = B.T * B
+        sp = rng.random() < 0.4
+        Gm, Am = (sparse(G), sparse(A)) if sp else (G, A)
+        Dfm = sparse(Df) if rng.random() < 0.3 else Df
+        Hm = sparse(H) if rng.random() < 0.3 else H
+        hasQS = bool(dims['q'] or dims['s'])
+        s_ = matrix([1.0 + rng.randint(0, 3) for _ in range(mnl)] + PR.interior_point(rng, dims), tc='d')
+        z_ = matrix([1.0 + rng.randint(0, 3) for _ in range(mnl)] + PR.interior_point(rng, dims), tc='d')
+        lm = matrix(0.0, (mnl + dims['l'] + sum(dims['q']) + sum(dims['s']), 1))
+        W = misc.compute_scaling(s_, z_, lm, dims, mnl)
+        bx = matrix([PR.rint(rng) for _ in range(n)], (n, 1), 'd'); by = matrix([PR.rint(rng) for _ in range(p)], (p, 1), 'd')
+        bz = matrix([PR.rint(rng) for _ in range(mnl)] + PR.sym_vector(rng, dims), (mnl + N, 1), 'd')
+        sols = {}
+        nl_systems += 1
+        for nm in ['ldl', 'ldl2', 'chol'] + ([] if hasQS else ['chol2']):
+            try:
+                f = getattr(misc, 'kkt_' + nm)(Gm, dims, Am, mnl)(W, Hm, Dfm)
+            except ArithmeticError: continue
+            except Exception as e:
+                ctx.violation('c07:factory-exception:nonlinear:' + nm, 'misc.kkt_%s(G, dims, A, %d)(W, H, Df) raised %s: %s' % (nm, mnl, type(e).__name__, e), {'dims': dims, 'mnl': mnl}); continue
+            x, y, zz = +bx, +by, +bz
+            f(x, y, zz); evals += 1
+            uz = +zz; misc.scale(uz, W, inverse='I')
+            uznl, uzl = uz[:mnl], matrix(uz[mnl:], (N, 1))
+            r1 = H * x - bx + Df.T * uznl + matrix([misc.sdot(matrix(list(G[:, j]), (N, 1)), uzl, dims) for j in range(n)], (n, 1), 'd')
+            if p: r1 = r1 + A.T * y
+            r2 = A * x - by
+            wz = +zz; misc.scale(wz, W, trans='T')
+            r3 = matrix([Df * x, G * x]) - wz - bz
+            r3l = matrix(r3[mnl:], (N, 1))
+            res = math.sqrt(blas.dot(r1, r1) + blas.dot(r2, r2) + blas.dot(r3[:mnl], r3[:mnl]) + abs(misc.sdot(r3l, r3l, dims)))
+            scale_ = 1.0 + blas.nrm2(bx) + blas.nrm2(by) + blas.nrm2(bz) + blas.nrm2(x) + blas.nrm2(zz)
+            if not (res <= 1e-7 * scale_):
+                ctx.violation('c07:kkt-residual:nonlinear:' + nm, 'kkt_%s with mnl = %d: residual %.3g of the documented block system [H A\' GG\'; A 0 0; GG 0 -W\'W], GG = [Df; G] '
+                              '(dims %s, %s)' % (nm, mnl, res / scale_, dims, 'sparse' if sp else 'dense'), {'dims': dims, 'mnl': mnl, 'solver': nm, 'sparse': sp})
+            sols[nm] = (list(x) + list(y), +zz)
+        ref = None
+        for nm, (sxy, sz) in sols.items():
+            if ref is None: ref = (nm, sxy, sz); continue
+            d1 = max([abs(a - b) for a, b in zip(sxy, ref[1])] + [0.0])
+            dz = sz - ref[2]; d2 = math.sqrt(blas.dot(dz[:mnl], dz[:mnl]) + abs(misc.sdot(matrix(dz[mnl:], (N, 1)), matrix(dz[mnl:], (N, 1)), dims)))
+            if max(d1, d2) > 1e-6 * (1 + max(abs(a) for a in ref[1] + [0.0])):
+                ctx.violation('c07:solvers-disagree:nonlinear:%s-vs-%s' % (nm, ref[0]), 'kkt_%s and kkt_%s (mnl = %d) give different solutions of the same KKT system (diff %.3g)'
+                              % (nm, ref[0], mnl, max(d1, d2)), {'dims': dims, 'mnl': mnl, 'sparse': sp})
+    ctx.cov['systems_with_nonlinear_block'] = nl_systems
     # ---- W handed to a user kktsolver during real solves
     nsolve = 10 if ctx.quick() else 300
     for it in range(nsolve):
@@ -183,7 +246,7 @@ def correspond(ctx):
     ctx.cov.update({'evaluations': evals, 'distinct_nontrivial': len(distinct), 'cpl_solves_with_user_kktsolver': ncpl,
                     'rule': '%d KKT systems (integer G of full column rank, A of full row rank, optional P = B\'B, random cone structure, dense/sparse) x every '
                             'factory the structure admits x histories of 1-3 scalings on the same factory object x 1-2 right-hand sides: residual of the '
-                            'documented block system, mutual agreement; invariants of compute_scaling and of every W passed to a user kktsolver in %d solves' % (nsys, nsolve)})
+                            'documented block system, mutual agreement; the same with a nonlinear block (mnl = 1..2, H and Df given, factories ldl / ldl2 / chol / chol2); invariants of compute_scaling and of every W passed to a user kktsolver in %d solves' % (nsys, nsolve)})
     ctx.samples += ['residual of [P A\' G\'; A 0 0; G 0 -W\'W](ux,uy,uz) = (bx,by,bz) with (x,y,z) = (ux,uy,W uz)', 'W invariants: d*di=1, beta>0, v0>0, v\'Jv=1, r\' rti = I, W z = W^-T s = lambda']
 
 def check_W(ctx, cvxopt, W, s, z, lm, dims, where, k):
